@@ -119,6 +119,14 @@ CHECKS: dict[str, tuple[str, str, str, str, str]] = {
             "chunks, and exact reply frames at the device for voice-assistant sequences; unsubscribe at every position of a stream.",
             "runtime monitoring: callback trace vs one-callback-per-message / camera reassembly models, exhaustive small interleavings",
             "DESIGN.md §4 C17"),
+    "C20": ("R", "exploration",
+            "The real host_resolver / ZeroconfManager / APIClient.start_connection run on a simulated loop with logging doubles for mDNS and "
+            "getaddrinfo; returned addresses (or the addresses handed to the connect step and the TCP attempts made), the exact lookup-call trace "
+            "and the close count of every zeroconf instance (supplied vs library-created) are compared with a reference resolver written from the "
+            "statement: complete for <= 2 hosts over 8 host forms x mDNS x OS outcomes x 5 provisions, sampled for 3, cancellation / resolve timeout "
+            "mid-lookup, all ZeroconfManager operation sequences up to length 4 (quick) / 5 (thorough).",
+            "runtime monitoring: result + lookup-call trace + per-instance close counters vs reference resolver, exhaustive small matrix",
+            "DESIGN.md §4 C20"),
 }
 
 NOT_YET = {
